@@ -349,7 +349,6 @@ def check(ctx):
                        ok, node=x, by=(norm(x),),
                        detail="" if ok else f"`{norm(x)}` in {fo.qual if fo else '<module>'} changes an SSL context (possibly the caller's, shared with other streams): "
                                             "truncation handling of unrelated streams changes with it")
-    ctx.floor("R17-c", "writes to SSL context settings in streams/tls.py", n_opt, 1)
     hw = ctx.fn("TLSListener.serve.handler_wrapper", TLS)
     cn = ctx.fn("TLSConnectable.connect", TLS)
     for f, need in ((hw, {"ssl_context": "self.ssl_context", "standard_compatible": "self.standard_compatible"}),
